@@ -281,7 +281,7 @@ def gen_drv(tier, rng):
     n = 0
     for p, q in itertools.product(slots, slots):
         n += 1
-        fsel = FORMS if thorough else [FORMS[n % len(FORMS)]]
+        fsel = FORMS if thorough and n % 3 == 0 else [FORMS[n % len(FORMS)]]
         for j, f1 in enumerate(fsel):
             f2 = FORMS[(n // len(FORMS) + j) % len(FORMS)]
             if not thorough and n % 5 and p[2:] != q[2:]:
@@ -297,7 +297,7 @@ def gen_drv(tier, rng):
                     continue
                 cases.append(drv_case("fan", [(lo1, hi1, 0, d1, f1, False), (lo2, hi2, 0, d2, f2, False)], tag="same"))
     # (2) three placements
-    for _ in range(800 if not thorough else 20000):
+    for _ in range(800 if not thorough else 12000):
         ps = [rng.choice(slots) + (rng.choice(FORMS), rng.random() < 0.2) for _ in range(3)]
         if rng.random() < 0.6:   # bias to near-misses: a partition of the signal
             cut = sorted(rng.sample(range(1, 4), 2))
@@ -619,7 +619,7 @@ def gen_cyc(tier, rng):
             return ["add", rexpr(srcs, depth - 1, False), rexpr(srcs, depth - 1, False)]
         return ["c", rng.randrange(2), 1]
 
-    n = 600 if tier == "quick" else 6000
+    n = 600 if tier == "quick" else 4000
     for _ in range(n):
         # signals: s0 (up to 4 bits), s1 (up to 2 bits): <= 6 bits, plus an input s2
         w0, w1 = rng.randrange(2, 5), rng.randrange(1, 3)
